@@ -1,6 +1,7 @@
 package c02
 
 import (
+	"bytes"
 	"encoding/json"
 	"fmt"
 	"net/http"
@@ -84,7 +85,50 @@ func marshalDefs(defs []route.RouteDef) ([]byte, error) {
 	return json.Marshal(out)
 }
 
-func TestC02bCustomBackend(t *testing.T) {
+func TestC02bCustomBackend(t *testing.T) { customBackendHistory(t) }
+
+// C05: the route commands mean the same whether they arrive as text or as the custom backend's
+// JSON definitions (add, del in its three forms, weight): the same histories once more.
+func TestC05CustomBackendCommands(t *testing.T) { customBackendHistory(t) }
+
+// defsText writes definitions in the route-command language.
+func defsText(defs []route.RouteDef) string {
+	var b strings.Builder
+	for _, d := range defs {
+		switch d.Cmd {
+		case route.RouteAddCmd:
+			fmt.Fprintf(&b, "route add %s %s %s", d.Service, d.Src, d.Dst)
+		case route.RouteDelCmd:
+			fmt.Fprintf(&b, "route del %s", d.Service)
+			if d.Src != "" {
+				fmt.Fprintf(&b, " %s", d.Src)
+				if d.Dst != "" {
+					fmt.Fprintf(&b, " %s", d.Dst)
+				}
+			}
+		case route.RouteWeightCmd:
+			fmt.Fprintf(&b, "route weight %s %s", d.Service, d.Src)
+		}
+		if d.Weight != 0 || d.Cmd == route.RouteWeightCmd {
+			fmt.Fprintf(&b, " weight %v", d.Weight)
+		}
+		if len(d.Tags) > 0 {
+			fmt.Fprintf(&b, " tags %q", strings.Join(d.Tags, ","))
+		}
+		if len(d.Opts) > 0 {
+			var kv []string
+			for k, v := range d.Opts {
+				kv = append(kv, k+"="+v)
+			}
+			sort.Strings(kv)
+			fmt.Fprintf(&b, " opts %q", strings.Join(kv, " "))
+		}
+		b.WriteString("\n")
+	}
+	return b.String()
+}
+
+func customBackendHistory(t *testing.T) {
 	cs := &customServer{served: map[int]int{}, status: 200, body: "[]"}
 	cs.srv = httptest.NewServer(http.HandlerFunc(func(w http.ResponseWriter, r *http.Request) {
 		cs.mu.Lock()
@@ -132,6 +176,38 @@ func TestC02bCustomBackend(t *testing.T) {
 					d.Opts = rapid.SampledFrom([]map[string]string{{"strip": "/p"}, {"host": "dst"}, {"allow": "ip:10.0.0.0/8", "strip": "/x"}}).Draw(t, "opts")
 				}
 				defs = append(defs, d)
+			}
+			// now and then the backend also sends the other commands: a del in one of its three
+			// forms (service / service + source / service + source + destination) or a weight,
+			// aimed at what was just added
+			for k, m := 0, rapid.IntRange(0, 2).Draw(t, "ncmds"); k < m && n > 0; k++ {
+				i := rapid.IntRange(0, n-1).Draw(t, "cmdtarget")
+				svc, src, dst := fmt.Sprintf("svc%d", i), fmt.Sprintf("/p%d", i%3), fmt.Sprintf("http://10.%d.0.%d:80/", g%250, i)
+				switch rapid.IntRange(0, 3).Draw(t, "cmdkind") {
+				case 0:
+					defs = append(defs, route.RouteDef{Cmd: route.RouteDelCmd, Service: svc})
+				case 1:
+					defs = append(defs, route.RouteDef{Cmd: route.RouteDelCmd, Service: svc, Src: src})
+				case 2:
+					defs = append(defs, route.RouteDef{Cmd: route.RouteDelCmd, Service: svc, Src: src, Dst: dst})
+				default:
+					still := false // a weight command needs a target that is still there
+					if cp := append([]route.RouteDef{}, defs...); true {
+						if tb, err := route.NewTableCustom(&cp); err == nil {
+							for _, rs := range tb {
+								for _, r := range rs {
+									for _, x := range r.Targets {
+										still = still || (x.Service == svc && r.Path == src)
+									}
+								}
+							}
+						}
+					}
+					if still {
+						defs = append(defs, route.RouteDef{Cmd: route.RouteWeightCmd, Service: svc, Src: src, Weight: rapid.SampledFrom([]float64{0.2, 0.5}).Draw(t, "cmdweight")})
+					}
+				}
+				hx.Class("custom-backend:del-or-weight-definitions")
 			}
 			return defs
 		}
@@ -193,6 +269,11 @@ func TestC02bCustomBackend(t *testing.T) {
 			want, err := route.NewTableCustom(&cp)
 			if err != nil {
 				t.Fatalf("harness: last good definitions rejected: %v", err)
+			}
+			if fromText, err := route.NewTable(bytes.NewBufferString(defsText(lastGood))); err != nil {
+				t.Fatalf("harness: the same commands as text are rejected: %v\n%s", err, defsText(lastGood))
+			} else if got, w := dumpCustom(route.GetTable()), dumpCustom(fromText); got != w {
+				t.Fatalf("custom backend: after payload %d (%s) the active table is not what the same commands mean as text\nactive:\n%s\nfrom text:\n%s\ncommands:\n%s", i, what, got, w, defsText(lastGood))
 			}
 			if got, w := dumpCustom(route.GetTable()), dumpCustom(want); got != w {
 				t.Fatalf("custom backend: after payload %d (%s) the active table is not the table of the last good payload\nactive:\n%s\nlast good:\n%s\nhistory:\n%s", i, what, got, w, strings.Join(hist, "\n"))
